@@ -34,6 +34,55 @@ def parse_plain(data):
     return irgen.msg_to_plain(m)
 
 
+def build_reload_edit(spec):
+    """A sixth way to arrive at the IR: build a slightly different IR, save
+    it, load it, and finish it by public edits on the LOADED objects (rename
+    the modules, complete AuxData sequences / mappings in place after reading
+    them, flip a symbol's at_end).  Returns the finished, loaded IR."""
+    import copy
+
+    import gtirb as g
+    from .. import refcodec as R
+
+    spec0 = copy.deepcopy(spec)
+    edits = []
+    for c in [spec0] + spec0["modules"]:
+        for name, (t, v) in list(c["aux"].items()):
+            if isinstance(v, list) and v:
+                c["aux"][name] = (t, v[:-1])
+                edits.append((c["uuid"], "append", name, t, v[-1]))
+            elif isinstance(v, dict) and v:
+                k = list(v)[-1]
+                rest = {a: b for a, b in v.items() if a != k}
+                c["aux"][name] = (t, rest)
+                edits.append((c["uuid"], "setitem", name, t, (k, v[k])))
+    for m in spec0["modules"]:
+        edits.append((m["uuid"], "rename", m["name"], None, None))
+        m["name"] = m["name"] + "~"
+        for y in m["symbols"][:1]:
+            edits.append((y["uuid"], "at_end", y["at_end"], m["uuid"], None))
+            y["at_end"] = not y["at_end"]
+    x0, _ = irgen.build_ir(spec0, "topdown")
+    _, y = roundtrip(x0)
+    conts = {y.uuid: y}
+    conts.update({m.uuid: m for m in y.modules})
+    for u, kind, a, b, c in edits:
+        if kind == "rename":
+            conts[u].name = a
+        elif kind == "at_end":
+            sym = [s for s in conts[b].symbols if s.uuid == u][0]
+            sym.at_end = a
+        else:
+            t = R.parse(b)
+            data = conts[u].aux_data[a].data      # read ...
+            if kind == "append":                  # ... then edit in place
+                data.append(irgen.aux_to_impl(g, {}, t[1][0], c, False))
+            else:
+                data[irgen.aux_to_impl(g, {}, t[1][0], c[0], False)] = \
+                    irgen.aux_to_impl(g, {}, t[1][1], c[1], False)
+    return y
+
+
 def check_spec(label, spec, orders):
     """returns list of (signature, detail)"""
     out = []
@@ -42,7 +91,10 @@ def check_spec(label, spec, orders):
     for oi, order in enumerate(orders):
         tag = order
         try:
-            x, _ = irgen.build_ir(spec, order, aux_as_nodes=bool(oi % 2))
+            if order == "reload_edit":
+                x = build_reload_edit(spec)
+            else:
+                x, _ = irgen.build_ir(spec, order, aux_as_nodes=bool(oi % 2))
         except irgen.EnumMissing as e:
             out.append(("C01/python-enum-lacks-schema-constant", str(e)))
             continue
@@ -141,7 +193,7 @@ def report(ctx, bad):
 
 
 def run(ctx):
-    orders = irgen.ORDERS
+    orders = irgen.ORDERS + ["reload_edit"]
     cases, n, bad, capped, done, total = run_cases(ctx, work, orders)
     report(ctx, bad)
     n_struct = sum(1 for l, _ in cases if l.startswith("shape"))
@@ -158,7 +210,7 @@ def run(ctx):
         "reference decorations; every single%s boundary-value deviation of a "
         "20-node base IR; 5 construction orders each"
         % (9 if ctx.tier == "quick" else 11,
-           " and double"),
+           "" if ctx.tier == "quick" else " and double"),
         "samples": [cases[i][0] for i in (0, len(cases) // 2, len(cases) - 1)],
     }
     return ctx.finish(
@@ -173,7 +225,7 @@ def replay(doc):
     tier = doc.get("tier", "quick")
     for label, spec in ircases.all_cases(tier):
         if label == doc["case"]:
-            v = check_spec(label, spec, irgen.ORDERS)
+            v = check_spec(label, spec, irgen.ORDERS + ["reload_edit"])
             for s, d in v:
                 print(s, "--", d[:400])
             hit = any(s == doc["signature"] for s, _ in v)
